@@ -9,10 +9,10 @@
    * the source MAC must be unicast (bit 0 of byte 6 clear), EtherType >= 1536;
    * EtherType 0x0800: ip4 = ether[14:]; IsValid (since /repo 38ef1da): len >= 20, IHL >= 20,
      len >= IHL, TotalLen >= IHL, len >= TotalLen — the version nibble is NOT checked;
-   * EtherType 0x86dd: ip6 = ether[14:]; IsValid: len >= 40 and uint16(PayloadLen+40) == len — the
-     version nibble is not checked;
+   * EtherType 0x86dd: ip6 = ether[14:]; IsValid (since /repo 28b2fc9): len >= 40 and
+     PayloadLen+40 <= len (trailing bytes allowed) — the version nibble is not checked;
    * the ICMP message is frame.Payload() = ether[14+IHL:] resp. ether[54:], i.e. it extends to the
-     END OF THE ETHERNET FRAME, not to IP4.TotalLen;
+     END OF THE ETHERNET FRAME, not to IP4.TotalLen / IP6.PayloadLen;
    * ONE switch on the protocol number serves both IP versions: protocol 1 tests type 0,
      protocol 58 tests type 129, whatever the EtherType was;
    * ICMP.IsValid and ICMPEcho.IsValid are both len >= 8; code and checksum are not looked at;
@@ -65,7 +65,7 @@ Definition parse_notify_s (ether : slice) : res (option N) :=
          if Nat.ltb (len ip6) 40 then Ok None
          else
            pl <- be16_at ip6 4 ;;
-           if negb (Nat.eqb (N.to_nat (u16 (pl + 40))) (len ip6)) then Ok None
+           if Nat.ltb (len ip6) (N.to_nat pl + 40) then Ok None
            else
              proto <- idx ip6 6 ;;
              icmp <- slfrom ether 54 ;;
